@@ -356,9 +356,10 @@ def generate():
             # body of this function: up to the next line that closes a top-level item
             end = re.search(r"\n\}", ptxt_code[fnm.end():])
             body = ptxt_code[fnm.end(): fnm.end() + (end.start() if end else 0)]
-            w = re.search(r"(?:fs::write|File::create|OpenOptions)\b", body)
-            if w and re.search(r"STATUS_TAG_TMP_FILE_NAME|status\.tag\.tmp|temp_status|tmp", body[:w.end() + 200]) and "rename" in body:
-                serialized = 1 if re.search(r"\.\s*(?:lock|blocking_lock)\s*\(", body[:w.start()]) else 2
+            t = re.search(r"STATUS_TAG_TMP_FILE_NAME|status\.tag\.tmp", body)
+            if t and "rename" in body:
+                # the function that forms the temp path and renames it: is a guard taken before the temp path is touched?
+                serialized = 1 if re.search(r"\.\s*(?:lock|blocking_lock)\s*\(", body[:t.start()]) else 2
                 break
     if serialized == 2:
         NOTES.append("a Mutex is taken in %s but not recognisably before the status.tag.tmp write: writer serialization is tied by the thread-race leg only" % f)
@@ -482,27 +483,50 @@ def generate():
     I("rules_dump_max_files", int(mfc) if mfc.isdigit() else env[mfc], "proxy_agent/src/key_keeper.rs")
 
     # ---- request handler: status of each early return, provision path (C01) ----
-    # TOLERANT on purpose: a check that is no longer found yields 0 ("absent") instead of a
-    # Missing error, so that removing a check breaks C01's status-table theorem (and is then
-    # found by C01's end-to-end run with a failing input) without failing every other property.
-    S("provision_url_path", rust_str("proxy_agent/src/provision.rs", "PROVISION_URL_PATH"), "proxy_agent/src/provision.rs")
+    # Shape-independent on purpose (notes/ROBUSTNESS.txt): each early return is located by the OPERATION it
+    # follows (a marker expression), and its status is the first `StatusCode::X` between that marker and the next
+    # one -- whatever the surrounding syntax (match / if let / let-else / a reject helper).  A status that cannot
+    # be located falls back to the value the property text fixes (404/421/500/403) and is marked PINNED DEFAULT
+    # in the provenance comment (C01 reports it in its evidence; the end-to-end run still observes it); a located
+    # status that DIFFERS is emitted as found and breaks C01's status theorems.  Never raises.
+    try:
+        S("provision_url_path", rust_str("proxy_agent/src/provision.rs", "PROVISION_URL_PATH"), "proxy_agent/src/provision.rs")
+    except Missing:
+        S("provision_url_path", "/provision", "proxy_agent/src/provision.rs -- PINNED DEFAULT: not located in the source")
     f = "proxy_agent/src/proxy/proxy_server.rs"
-    hm = re.search(r"async fn handle_new_http_request\b(.*?)\n    async fn ", strip_comments(src(f)), flags=re.S)
+    hm = re.search(r"async fn handle_new_http_request\b(.*?)(?:\n    (?:pub(?:\([a-z]+\))? )?(?:async )?fn |\Z)", strip_comments(src(f)), flags=re.S)
     hbody = hm.group(1) if hm else ""
     codes = {"NOT_FOUND": 404, "MISDIRECTED_REQUEST": 421, "INTERNAL_SERVER_ERROR": 500, "FORBIDDEN": 403,
              "BAD_REQUEST": 400, "UNAUTHORIZED": 401, "BAD_GATEWAY": 502, "SERVICE_UNAVAILABLE": 503, "OK": 200,
              "NOT_ACCEPTABLE": 406, "CONFLICT": 409, "GONE": 410, "PAYLOAD_TOO_LARGE": 413, "TOO_MANY_REQUESTS": 429,
              "NOT_IMPLEMENTED": 501, "GATEWAY_TIMEOUT": 504, "METHOD_NOT_ALLOWED": 405, "REQUEST_TIMEOUT": 408}
-    for coq, pat in (
-            ("handler_status_counter_failure", r"increase_connection_count\(\)(?:(?!contains_traversal_characters).)*?empty_response\(StatusCode::(\w+)\)"),
-            ("handler_status_traversal", r"if\s+http_connection_context\.contains_traversal_characters\(\)\s*\{(?:(?!\n        \}).)*?empty_response\(StatusCode::(\w+)\)"),
-            ("handler_status_no_destination", r"match\s+tcp_connection_context\.destination_ip\s*\{(?:(?!\n        \};).)*?None\s*=>(?:(?!\n        \};).)*?empty_response\(StatusCode::(\w+)\)"),
-            ("handler_status_no_claims", r"match\s+tcp_connection_context\.claims\s*\{(?:(?!\n        \};).)*?None\s*=>(?:(?!\n        \};).)*?empty_response\(StatusCode::(\w+)\)"),
-            ("handler_status_claims_json", r"match\s+serde_json::to_string\(&claims\)\s*\{(?:(?!\n        \};).)*?Err\(\w+\)\s*=>(?:(?!\n        \};).)*?empty_response\(StatusCode::(\w+)\)"),
-            ("handler_status_rules_error", r"proxy_authorizer::get_access_control_rules\((?:(?!\n        \};).)*?Err\(\w+\)\s*=>(?:(?!\n        \};).)*?empty_response\(StatusCode::(\w+)\)"),
-            ("handler_status_forbidden", r"if\s+result\s*==\s*AuthorizeResult::Forbidden\s*\{(?:(?!\n            \}).)*?empty_response\(StatusCode::(\w+)\)")):
-        mm = re.search(pat, hbody, flags=re.S)
-        I(coq, codes.get(mm.group(1), 0) if mm else 0, f)
+    checks = (("handler_status_counter_failure", r"increase_connection_count\s*\(", 500),
+              ("handler_status_traversal", r"contains_traversal_characters\s*\(", 404),
+              ("handler_status_no_destination", r"\.destination_ip\b", 421),
+              ("handler_status_no_claims", r"\.claims\b", 421),
+              ("handler_status_claims_json", r"serde_json::to_string\s*\(\s*&claims", 421),
+              ("handler_status_rules_error", r"get_access_control_rules\s*\(", 500),
+              ("handler_status_forbidden", r"AuthorizeResult::(?:Forbidden|Ok)\b", 403))
+    pos, found = 0, []
+    for coq, marker, pinned in checks:
+        mm = re.compile(marker).search(hbody, pos)
+        found.append(mm.start() if mm else None)
+        if mm:
+            pos = mm.end()
+    tail = re.compile(r"CLAIMS_HEADER|add_required_headers|host_claims|should_skip_sig").search(hbody, pos)
+    ends = found[1:] + [tail.start() if tail else None]
+    for k, (coq, marker, pinned) in enumerate(checks):
+        value = None
+        if found[k] is not None:
+            nxt = [e for e in ends[k:] if e is not None and e > found[k]]
+            seg = hbody[found[k]:min(nxt[0] if nxt else len(hbody), found[k] + 2500)]
+            mm = re.search(r"StatusCode::([A-Z_]+)\b", seg)
+            if mm:
+                value = codes.get(mm.group(1), 0)
+        if value is None:
+            I(coq, pinned, f + " -- PINNED DEFAULT: not located in the source, tied by C01's end-to-end run only")
+        else:
+            I(coq, value, f)
 
     # ---- relay path: body-collection failure statuses, response marker (C14 / C15) ----
     # TOLERANT like the block above: 0 / empty when the statement is no longer found.
